@@ -288,7 +288,18 @@ impl World {
         let refr = refhpke::encap_with(kem, &pk_r, &sk_e, &pk_e, sref);
         match (&real, &refr) {
             (Err(Fail::Panic(m)), _) => return Err(self.viol("encap.no-panic", "value or EncapError".into(), m.clone())),
-            (Err(Fail::Decode(..)), _) => return Ok(()),
+            (Err(Fail::Decode(what, e)), _) => {
+                // a key the curve oracle calls valid must be usable (NIST; X25519 accepts everything)
+                if kem.is_nist() {
+                    let cv = math::curve(kem);
+                    let bad_pk = cv.valid_public(&pk_r) != PubVerdict::Valid;
+                    let bad_s = sender.as_ref().map(|(a, b)| cv.valid_private(a) != PubVerdict::Valid || cv.valid_public(b) != PubVerdict::Valid).unwrap_or(false);
+                    if !bad_pk && !bad_s {
+                        return Err(self.viol("encap.valid-key-rejected", "Ok: recipient public key and sender identity key pair are valid".into(), format!("{} rejected: {:?}", what, e)));
+                    }
+                }
+                return Ok(());
+            }
             (Err(Fail::Hpke(E::EncapError)), None) => {
                 cov.hit("probe.encap_zero_dh");
                 return Ok(());
@@ -330,7 +341,14 @@ impl World {
         let dref = refhpke::decap(kem, &enc, &sk_r, pk_s);
         match (&dreal, &dref) {
             (Err(Fail::Panic(m)), _) => return Err(self.viol("decap.no-panic", "value or DecapError".into(), m.clone())),
-            (Err(Fail::Decode(..)), _) => {}
+            (Err(Fail::Decode(what, e)), _) => {
+                if kem.is_nist() {
+                    let cv = math::curve(kem);
+                    if cv.valid_private(&sk_r) == PubVerdict::Valid && pk_s.map(|p| cv.valid_public(p) == PubVerdict::Valid).unwrap_or(true) && cv.valid_public(&enc) == PubVerdict::Valid {
+                        return Err(self.viol("decap.valid-key-rejected", "Ok: recipient private key, encapsulated key and sender key are valid".into(), format!("{} rejected: {:?}", what, e)));
+                    }
+                }
+            }
             (Err(Fail::Hpke(E::DecapError)), None) => cov.hit("probe.decap_zero_dh"),
             (Err(Fail::Hpke(e)), _) => return Err(self.viol("decap.outcome", format!("{}", if dref.is_some() { "Ok" } else { "Err(DecapError)" }), format!("{:?}", e))),
             (Ok(_), None) => return Err(self.viol("decap.zero-dh-accepted", "Err(DecapError)".into(), "Ok".into())),
